@@ -18,7 +18,9 @@ TEXT_TOKENS = {"ctrl_01": "a\x01b", "ctrl_0b": "a\x0bb", "ctrl_1f": "a\x1fb", "d
 # marks are name characters but not name-start characters; U+037E is excluded), for the places that take element names
 EDGE_TOKENS = {"division_sign_inside": "a÷b", "multiplication_sign_inside": "a×b", "division_sign_first": "÷a", "middle_dot_inside": "a·b",
                "middle_dot_first": "·a", "greek_question_mark": "a;b", "combining_mark_inside": "áb", "combining_mark_first": "́ab", "latin_letters_around": "ö_ø_ÿ",
-               "colon_inside": "a:b", "underscore_first": "_ab", "hyphen_first": "-ab", "dot_first": ".ab"}
+               "colon_inside": "a:b", "underscore_first": "_ab", "hyphen_first": "-ab", "dot_first": ".ab",
+               # a character range spelled out as text, capital letters of the Latin-1 block (À U+00C0 .. Ö U+00D6) as name and name-start characters
+               "range_spelled_out": "À-Ö]x", "bracket_inside": "a]b", "latin1_capital_first": "Àge", "latin1_capitals": "ÉCOLE", "latin1_capital_inside": "aÖb"}
 ELEMENT_NAME_CHANNELS = ["question_name", "group_name", "repeat_name", "settings_name"]
 NAME_CHANNELS = ["choices_column", "bind_suffix", "instance_suffix", "body_suffix", "settings_attribute", "namespaces_prefix"]
 TEXT_CHANNELS = ["label", "hint", "choice_label", "default", "title", "constraint_message", "itext_label", "choice_extra", "appearance"]
